@@ -6,8 +6,8 @@ JSON_TB = ["encoding/json's lexer (bytes → tokens, UTF-8 repair, escapes): the
 PROPS = {
  'C05': dict(
     group='codec', only=['keyid'], ops=['keyid.rt', 'keyid.dec'],
-    modules=['Ysshra.Props.C05', 'Ysshra.Bridge.KeyId'],
-    theorem_files=['Props/C05.lean', 'Bridge/KeyId.lean'],
+    modules=['Ysshra.Props.C05', 'Ysshra.Bridge.KeyId', 'Ysshra.Bridge.SnapKeyIdAux'],
+    theorem_files=['Props/C05.lean', 'Bridge/KeyId.lean', 'Bridge/SnapKeyIdAux.lean'],
     anchors=['keyid/'],
     n=dict(quick=3000, thorough=150000),
     trivial=lambda c: (c['op'] == 'keyid.dec' and c['args'][0] == '!') ,
@@ -20,8 +20,8 @@ PROPS = {
  ),
  'C19': dict(
     group='codec', only=['certtype'], ops=['certtype'],
-    modules=['Ysshra.Props.C19', 'Ysshra.Bridge.CertType', 'Ysshra.Bridge.KeyId'],
-    theorem_files=['Props/C19.lean', 'Bridge/CertType.lean'],
+    modules=['Ysshra.Props.C19', 'Ysshra.Bridge.CertType', 'Ysshra.Bridge.KeyId', 'Ysshra.Bridge.SnapKeyIdAux'],
+    theorem_files=['Props/C19.lean', 'Bridge/CertType.lean', 'Bridge/SnapKeyIdAux.lean'],
     anchors=['sshutils/cert/', 'keyid/'],
     n=dict(quick=2000, thorough=40000),
     trivial=lambda c: False,
@@ -34,8 +34,8 @@ PROPS = {
  ),
  'C14': dict(
     group='codec', only=['param', 'msg.dec'], ops=['param.new', 'msg.dec'],
-    modules=['Ysshra.Props.C14', 'Ysshra.Props.C15'],
-    theorem_files=['Props/C14.lean'],
+    modules=['Ysshra.Props.C14', 'Ysshra.Props.C15', 'Ysshra.Bridge.SnapParam', 'Ysshra.Bridge.SnapMessage'],
+    theorem_files=['Props/C14.lean', 'Bridge/SnapParam.lean', 'Bridge/SnapMessage.lean'],
     anchors=['csr/', 'message/', 'sshutils/version', 'common/'],
     n=dict(quick=1500, thorough=60000),
     trivial=lambda c: (c['model'] or ['?'])[0] == 'err' and c['op'] == 'param.new' and c['args'][0] == '!' and False,
@@ -47,8 +47,8 @@ PROPS = {
  ),
  'C15': dict(
     group='codec', only=['msg'], ops=['msg.enc', 'msg.dec'],
-    modules=['Ysshra.Props.C15'],
-    theorem_files=['Props/C15.lean'],
+    modules=['Ysshra.Props.C15', 'Ysshra.Bridge.SnapMessage'],
+    theorem_files=['Props/C15.lean', 'Bridge/SnapMessage.lean'],
     anchors=['message/'],
     n=dict(quick=2500, thorough=100000),
     trivial=lambda c: False,
@@ -61,8 +61,8 @@ PROPS = {
  ),
  'C06': dict(
     group='attest', only=['attest'], ops=['attest'],
-    modules=['Ysshra.Props.C06', 'Ysshra.Bridge.Attest'],
-    theorem_files=['Props/C06.lean', 'Bridge/Attest.lean'],
+    modules=['Ysshra.Props.C06', 'Ysshra.Bridge.Attest', 'Ysshra.Bridge.SnapParse'],
+    theorem_files=['Props/C06.lean', 'Bridge/Attest.lean', 'Bridge/SnapParse.lean'],
     anchors=['attestation/yubiattest/signature.go', 'attestation/yubiattest/attest.go'],
     n=dict(quick=1200, thorough=12000),
     timeout=dict(quick=600, thorough=3000),
@@ -78,8 +78,8 @@ PROPS = {
  ),
  'C16': dict(
     group='attest', only=['modhex', 'pem', 'certparse'], ops=['modhex', 'pem', 'certparse'],
-    modules=['Ysshra.Props.C16', 'Ysshra.Bridge.Attest'],
-    theorem_files=['Props/C16.lean'],
+    modules=['Ysshra.Props.C16', 'Ysshra.Bridge.Attest', 'Ysshra.Bridge.SnapParse'],
+    theorem_files=['Props/C16.lean', 'Bridge/SnapParse.lean'],
     anchors=['attestation/yubiattest/modhex.go', 'attestation/yubiattest/attest.go', 'agent/utils/'],
     n=dict(quick=600, thorough=8000),
     timeout=dict(quick=600, thorough=3000),
@@ -95,8 +95,8 @@ PROPS = {
  'C12': dict(
     group='serve', only=['serve'], ops=['serve'],
     klass=lambda c: 'serve:' + (c['model'] or ['?'])[0] + ':frames' + str(min(4, c['args'][1].count('|') + (0 if c['args'][1] == '[]' else 1))),
-    modules=['Ysshra.Props.C12', 'Ysshra.Bridge.Wire'],
-    theorem_files=['Props/C12.lean', 'Bridge/Wire.lean'],
+    modules=['Ysshra.Props.C12', 'Ysshra.Bridge.Wire', 'Ysshra.Bridge.SnapYubi'],
+    theorem_files=['Props/C12.lean', 'Bridge/Wire.lean', 'Bridge/SnapYubi.lean'],
     anchors=['agent/yubiagent/'],
     n=dict(quick=3000, thorough=120000),
     trivial=lambda c: c['args'][1] == '[]',
@@ -111,8 +111,8 @@ PROPS = {
  'C13': dict(
     group='serve', only=['rpc', 'slots'], ops=['rpc', 'slots'],
     klass=lambda c: c['op'] + ':' + (c['args'][0] if c['op'] == 'rpc' else c['args'][2]) + ':' + ((c['model'] or ['?', '?'])[-1].split(' ')[0].split(':')[0])[:12],
-    modules=['Ysshra.Props.C13', 'Ysshra.Bridge.Wire'],
-    theorem_files=['Props/C13.lean'],
+    modules=['Ysshra.Props.C13', 'Ysshra.Bridge.Wire', 'Ysshra.Bridge.SnapYubi'],
+    theorem_files=['Props/C13.lean', 'Bridge/SnapYubi.lean'],
     anchors=['agent/yubiagent/'],
     n=dict(quick=1500, thorough=40000),
     timeout=dict(quick=900, thorough=3000),
@@ -128,8 +128,8 @@ PROPS = {
  'C20': dict(
     group='conc', only=['cond'], ops=['cond'], build_flags=['-race'],
     klass=lambda c: 'cond:events' + str(c['args'][0].count(',') + 1),
-    modules=['Ysshra.Props.C20', 'Ysshra.Bridge.Wire'],
-    theorem_files=['Props/C20.lean', 'Bridge/Wire.lean'],
+    modules=['Ysshra.Props.C20', 'Ysshra.Bridge.Wire', 'Ysshra.Bridge.SnapShim', 'Ysshra.Bridge.SnapYubi'],
+    theorem_files=['Props/C20.lean', 'Bridge/Wire.lean', 'Bridge/SnapShim.lean', 'Bridge/SnapYubi.lean'],
     anchors=['agent/shimagent/shimserver.go', 'agent/yubiagent/server.go'],
     n=dict(quick=150, thorough=3000),
     timeout=dict(quick=900, thorough=3400),
@@ -144,8 +144,8 @@ PROPS = {
  'C07': dict(
     group='shim', only=['hist'], ops=['hist'],
     klass=lambda c: 'hist:noup' + c['args'][0] + ':ops' + str(min(25, 5 * (c['args'][3].count(';') // 5))) + ('+faults' if '!' in c['args'][3] else ''),
-    modules=['Ysshra.Props.C07'],
-    theorem_files=['Props/C07.lean'],
+    modules=['Ysshra.Props.C07', 'Ysshra.Bridge.SnapShim'],
+    theorem_files=['Props/C07.lean', 'Bridge/SnapShim.lean'],
     anchors=['agent/shimagent/', 'sshutils/cert/validation.go'],
     n=dict(quick=500, thorough=20000),
     timeout=dict(quick=900, thorough=3400),
@@ -157,8 +157,8 @@ PROPS = {
  'C08': dict(
     group='shim', only=['hist'], ops=['hist'],
     klass=lambda c: 'hist:noup' + c['args'][0] + ':ops' + str(min(25, 5 * (c['args'][3].count(';') // 5))) + ('+faults' if '!' in c['args'][3] else ''),
-    modules=['Ysshra.Props.C08'],
-    theorem_files=['Props/C08.lean'],
+    modules=['Ysshra.Props.C08', 'Ysshra.Bridge.SnapShim'],
+    theorem_files=['Props/C08.lean', 'Bridge/SnapShim.lean'],
     anchors=['agent/shimagent/', 'sshutils/cert/validation.go'],
     n=dict(quick=500, thorough=20000),
     timeout=dict(quick=900, thorough=3400),
@@ -170,8 +170,8 @@ PROPS = {
  'C09': dict(
     group='shim', only=['hist'], ops=['hist'],
     klass=lambda c: 'hist:noup' + c['args'][0] + ':ops' + str(min(25, 5 * (c['args'][3].count(';') // 5))) + ('+faults' if '!' in c['args'][3] else ''),
-    modules=['Ysshra.Props.C09'],
-    theorem_files=['Props/C09.lean'],
+    modules=['Ysshra.Props.C09', 'Ysshra.Bridge.SnapShim', 'Ysshra.Bridge.SnapKeyIdAux'],
+    theorem_files=['Props/C09.lean', 'Bridge/SnapShim.lean', 'Bridge/SnapKeyIdAux.lean'],
     anchors=['agent/shimagent/', 'sshutils/cert/validation.go'],
     n=dict(quick=500, thorough=20000),
     timeout=dict(quick=900, thorough=3400),
@@ -183,8 +183,8 @@ PROPS = {
  'C10': dict(
     group='shim', only=['hist', 'weird'], ops=['hist'],
     klass=lambda c: 'hist:noup' + c['args'][0] + ':ops' + str(min(25, 5 * (c['args'][3].count(';') // 5))) + ('+faults' if '!' in c['args'][3] else ''),
-    modules=['Ysshra.Props.C10'],
-    theorem_files=['Props/C10.lean'],
+    modules=['Ysshra.Props.C10', 'Ysshra.Bridge.SnapShim', 'Ysshra.Bridge.SnapYubi'],
+    theorem_files=['Props/C10.lean', 'Bridge/SnapShim.lean', 'Bridge/SnapYubi.lean'],
     anchors=['agent/shimagent/', 'sshutils/cert/validation.go'],
     n=dict(quick=500, thorough=20000),
     timeout=dict(quick=900, thorough=3400),
@@ -196,8 +196,8 @@ PROPS = {
  'C01': dict(
     group='gensign', only=['gs'], ops=['gs'],
     klass=lambda c: 'gs:runs' + str(c['args'][1].count(';') + 1) + ':' + ('ok' if 'res=ok' in ((c['model'] or [''])[0]) else 'noSuccess'),
-    modules=['Ysshra.Props.C01', 'Ysshra.Bridge.Gensign'],
-    theorem_files=['Props/C01.lean', 'Bridge/Gensign.lean'],
+    modules=['Ysshra.Props.C01', 'Ysshra.Bridge.Gensign', 'Ysshra.Bridge.SnapGensignAux'],
+    theorem_files=['Props/C01.lean', 'Bridge/Gensign.lean', 'Bridge/SnapGensignAux.lean'],
     anchors=['gensign/', 'agent/ssh/', 'csr/', 'crypki/common.go'],
     n=dict(quick=600, thorough=30000),
     timeout=dict(quick=900, thorough=3400),
@@ -209,8 +209,8 @@ PROPS = {
  'C02': dict(
     group='gensign', only=['gs'], ops=['gs'],
     klass=lambda c: 'gs:runs' + str(c['args'][1].count(';') + 1) + ':' + ('ok' if 'res=ok' in ((c['model'] or [''])[0]) else 'noSuccess'),
-    modules=['Ysshra.Props.C02', 'Ysshra.Bridge.Gensign'],
-    theorem_files=['Props/C02.lean', 'Bridge/Gensign.lean'],
+    modules=['Ysshra.Props.C02', 'Ysshra.Bridge.Gensign', 'Ysshra.Bridge.SnapGensignAux', 'Ysshra.Bridge.KeyId', 'Ysshra.Bridge.SnapKeyIdAux'],
+    theorem_files=['Props/C02.lean', 'Bridge/Gensign.lean', 'Bridge/SnapGensignAux.lean', 'Bridge/KeyId.lean', 'Bridge/SnapKeyIdAux.lean'],
     anchors=['gensign/', 'agent/ssh/', 'csr/', 'crypki/common.go'],
     n=dict(quick=600, thorough=30000),
     timeout=dict(quick=900, thorough=3400),
@@ -222,8 +222,8 @@ PROPS = {
  'C03': dict(
     group='gensign', only=['gs'], ops=['gs'],
     klass=lambda c: 'gs:runs' + str(c['args'][1].count(';') + 1) + ':' + ('ok' if 'res=ok' in ((c['model'] or [''])[0]) else 'noSuccess'),
-    modules=['Ysshra.Props.C03', 'Ysshra.Bridge.Gensign'],
-    theorem_files=['Props/C03.lean', 'Bridge/Gensign.lean'],
+    modules=['Ysshra.Props.C03', 'Ysshra.Bridge.Gensign', 'Ysshra.Bridge.SnapGensignAux'],
+    theorem_files=['Props/C03.lean', 'Bridge/Gensign.lean', 'Bridge/SnapGensignAux.lean'],
     anchors=['gensign/', 'agent/ssh/', 'csr/', 'crypki/common.go'],
     n=dict(quick=600, thorough=30000),
     timeout=dict(quick=900, thorough=3400),
@@ -235,8 +235,8 @@ PROPS = {
  'C04': dict(
     group='gensign', only=['gs'], ops=['gs'],
     klass=lambda c: 'gs:runs' + str(c['args'][1].count(';') + 1) + ':' + ('ok' if 'res=ok' in ((c['model'] or [''])[0]) else 'noSuccess'),
-    modules=['Ysshra.Props.C04', 'Ysshra.Bridge.Gensign'],
-    theorem_files=['Props/C04.lean', 'Bridge/Gensign.lean'],
+    modules=['Ysshra.Props.C04', 'Ysshra.Bridge.Gensign', 'Ysshra.Bridge.SnapGensignAux'],
+    theorem_files=['Props/C04.lean', 'Bridge/Gensign.lean', 'Bridge/SnapGensignAux.lean'],
     anchors=['gensign/', 'agent/ssh/', 'csr/', 'crypki/common.go'],
     n=dict(quick=600, thorough=30000),
     timeout=dict(quick=900, thorough=3400),
@@ -249,8 +249,8 @@ PROPS = {
     group='crypki', only=['sign', 'backoff'], ops=['sign', 'backoff'],
     klass=lambda c: c['op'] + ':' + ((c['model'] or ['?'])[0].split(' ')[0] if c['op'] == 'sign' else 'att' + ('0' if c['args'][4] == '0' else '+')) ,
     compare=lambda c: None if c['op'] == 'backoff' else (c['model'] == c['impl']),
-    modules=['Ysshra.Props.C17', 'Ysshra.Props.C17Backoff', 'Ysshra.Bridge.Crypki'],
-    theorem_files=['Props/C17.lean', 'Props/C17Backoff.lean', 'Bridge/Crypki.lean'],
+    modules=['Ysshra.Props.C17', 'Ysshra.Props.C17Backoff', 'Ysshra.Bridge.Crypki', 'Ysshra.Bridge.SnapTls'],
+    theorem_files=['Props/C17.lean', 'Props/C17Backoff.lean', 'Bridge/Crypki.lean', 'Bridge/SnapTls.lean'],
     anchors=['crypki/', 'tlsutils/', 'internal/backoff/', 'sshutils/key/parse.go'],
     n=dict(quick=120, thorough=3000),
     timeout=dict(quick=900, thorough=3400),
@@ -263,8 +263,8 @@ PROPS = {
     group='crypki', only=['sign'], ops=['sign'],
     klass=lambda c: c['op'] + ':' + ((c['model'] or ['?'])[0].split(' ')[0] if c['op'] == 'sign' else 'att' + ('0' if c['args'][4] == '0' else '+')) ,
     compare=lambda c: c['model'] == c['impl'],
-    modules=['Ysshra.Props.C18', 'Ysshra.Bridge.Crypki'],
-    theorem_files=['Props/C18.lean', 'Bridge/Crypki.lean'],
+    modules=['Ysshra.Props.C18', 'Ysshra.Bridge.Crypki', 'Ysshra.Bridge.SnapTls'],
+    theorem_files=['Props/C18.lean', 'Bridge/Crypki.lean', 'Bridge/SnapTls.lean'],
     anchors=['crypki/', 'tlsutils/', 'internal/backoff/', 'sshutils/key/parse.go'],
     n=dict(quick=120, thorough=3000),
     timeout=dict(quick=900, thorough=3400),
@@ -276,8 +276,8 @@ PROPS = {
  'C11': dict(
     group='conc', only=['race'], ops=['race'], build_flags=['-race'],
     klass=lambda c: 'race:goroutines' + c['args'][0],
-    modules=['Ysshra.Props.C11'],
-    theorem_files=['Props/C11.lean'],
+    modules=['Ysshra.Props.C11', 'Ysshra.Bridge.SnapShim'],
+    theorem_files=['Props/C11.lean', 'Bridge/SnapShim.lean'],
     anchors=['agent/shimagent/shimserver.go'],
     n=dict(quick=80, thorough=1500),
     timeout=dict(quick=900, thorough=3400),
@@ -292,7 +292,9 @@ PROPS = {
 NOT_APPLICABLE = {}
 
 _NOTE = ('Trusted: Lean 4.33 kernel (axioms propext, Classical.choice, Quot.sound only; audited per theorem on every run), '
-         'the go/ast translator /verif/extract, the overlay harness + Lean driver + bin/check; ')
+         'the go/ast translator /verif/extract, the overlay harness + Lean driver + bin/check. Every function of the anchored source files is also regenerated statement by statement and pinned (Bridge/Snap*.lean): '
+         'an edit there breaks a proof obligation even when no generated input exposes it (then reported with no-failing-input-found). A failing input is reported only when the executable statement of the property '
+         '(Spec/*.lean, clause tags) fails on the implementation\'s own output; ')
 
 MANIFEST_TEXT = {
  'C05': dict(
